@@ -399,6 +399,21 @@ func driveEncoder(c *driverCtx, prop string) error {
 	cases = append(cases, hcase{"null", 1 << 20, append(big, encOp{flush: true})})
 	cases = append(cases, hcase{"snappy", 8000, append(big, encOp{flush: true})})
 
+	// one record far larger than the block size (and than any buffer-retention threshold) in the middle of small ones
+	if prop == "C09" {
+		cases = append(cases, hcase{"null", 1000, []encOp{{p: payload(c.rng, 10)}, {p: payload(c.rng, 1600000)}, {p: payload(c.rng, 10)}, {p: payload(c.rng, 12)}, {flush: true}, {flush: true}, {p: payload(c.rng, 5)}, {flush: true}}})
+	}
+	// many records that compress to almost nothing: 64 and more rows in a block of a few bytes
+	for _, n := range []int{63, 64, 65, 100, 200} {
+		for _, codec := range []string{"deflate", "snappy"} {
+			recs := make([]encOp, n)
+			for i := range recs {
+				recs[i] = encOp{p: []byte{}}
+			}
+			cases = append(cases, hcase{codec, 1 << 20, append(recs, encOp{flush: true})})
+			cases = append(cases, hcase{codec + "|empty", 1 << 20, append(append([]encOp{}, recs...), encOp{flush: true})})
+		}
+	}
 	// counts and payload lengths around the one- / two-byte varint boundary of the block framing (63, 64, 65)
 	for _, n := range []int{63, 64, 65} {
 		recs := make([]encOp, n)
